@@ -34,6 +34,168 @@ fn wrong_lit_for(t: &Ty) -> String {
     }
 }
 
+// ---- systematic mismatches: a type T, a one-point mutation T' != T, a value of T' where T is required
+
+fn mm_ty(d: &mut Dec, depth: u32) -> Ty {
+    let top = if depth == 0 { 4 } else { 9 };
+    match d.below(top) {
+        0 => Ty::Int(ALL_IK[d.below(ALL_IK.len())]),
+        1 => Ty::Bool,
+        2 => Ty::Str,
+        3 => Ty::Unit,
+        4 => {
+            let n = 2 + d.below(2);
+            Ty::Tuple((0..n).map(|_| mm_ty(d, depth - 1)).collect())
+        }
+        5 => Ty::Array(Box::new(mm_ty(d, depth - 1)), 1 + d.below(3) as u32),
+        6 => Ty::Vec(Box::new(mm_ty(d, depth - 1))),
+        7 => Ty::Ref(Box::new(mm_ty(d, depth - 1))),
+        _ => {
+            let n = d.below(3);
+            Ty::Fn((0..n).map(|_| mm_ty(d, depth - 1)).collect(), Box::new(mm_ty(d, depth - 1)))
+        }
+    }
+}
+
+/// a closed expression whose type is exactly `t` (every literal carries its type)
+fn mm_value(t: &Ty) -> String {
+    match t {
+        Ty::Unit => "()".into(),
+        Ty::Bool => "true".into(),
+        Ty::Int(k) => format!("1{}", k.suffix()),
+        Ty::Str => "\"s\"".into(),
+        Ty::Tuple(ts) => format!("({})", ts.iter().map(mm_value).collect::<Vec<_>>().join(", ")),
+        Ty::Array(t, n) => format!("[{}]", (0..*n).map(|_| mm_value(t)).collect::<Vec<_>>().join(", ")),
+        Ty::Vec(t) => format!("vec_push(vec_new(), {})", mm_value(t)),
+        Ty::Ref(t) => format!("ref({})", mm_value(t)),
+        Ty::Fn(ps, r) => {
+            let params: Vec<String> = ps.iter().enumerate().map(|(i, t)| format!("q{}: {}", i, mm_ty_text(t))).collect();
+            format!("|{}| {}", params.join(", "), mm_value(r))
+        }
+        _ => "()".into(),
+    }
+}
+
+fn mm_ty_text(t: &Ty) -> String {
+    crate::gen::render::render_ty(&GProg::default(), t)
+}
+
+fn mm_nodes(t: &Ty) -> usize {
+    1 + match t {
+        Ty::Tuple(ts) => ts.iter().map(mm_nodes).sum(),
+        Ty::Array(t, _) | Ty::Vec(t) | Ty::Ref(t) => mm_nodes(t),
+        Ty::Fn(ps, r) => ps.iter().map(mm_nodes).sum::<usize>() + mm_nodes(r),
+        _ => 0,
+    }
+}
+
+/// replace the node with pre-order index `at` by a different type; returns the kind of change
+fn mm_mutate(t: &Ty, at: &mut usize, d: &mut Dec, kind: &mut &'static str) -> Ty {
+    if *at == 0 {
+        *at = usize::MAX;
+        return match t {
+            Ty::Int(k) => {
+                *kind = "mismatch:leaf";
+                let others: Vec<IK> = ALL_IK.iter().copied().filter(|x| x != k).collect();
+                if d.chance(60) { Ty::Bool } else { Ty::Int(others[d.below(others.len())]) }
+            }
+            Ty::Bool => {
+                *kind = "mismatch:leaf";
+                [Ty::i32(), Ty::Str, Ty::Unit][d.below(3)].clone()
+            }
+            Ty::Str => {
+                *kind = "mismatch:leaf";
+                [Ty::i32(), Ty::Bool, Ty::Unit][d.below(3)].clone()
+            }
+            Ty::Unit => {
+                *kind = "mismatch:leaf";
+                [Ty::i32(), Ty::Bool, Ty::Str][d.below(3)].clone()
+            }
+            Ty::Tuple(ts) => {
+                *kind = "mismatch:arity";
+                let mut ts = ts.clone();
+                if ts.len() > 2 && d.bool() {
+                    ts.pop();
+                } else {
+                    ts.push(Ty::i32());
+                }
+                Ty::Tuple(ts)
+            }
+            Ty::Array(e, n) => match d.below(3) {
+                0 => {
+                    *kind = "mismatch:array-len";
+                    Ty::Array(e.clone(), n + 1)
+                }
+                1 => {
+                    *kind = "mismatch:ctor-swap";
+                    Ty::Vec(e.clone())
+                }
+                _ => {
+                    *kind = "mismatch:ctor-swap";
+                    Ty::Ref(e.clone())
+                }
+            },
+            Ty::Vec(e) => {
+                *kind = "mismatch:ctor-swap";
+                if d.bool() { Ty::Ref(e.clone()) } else { Ty::Array(e.clone(), 1 + d.below(2) as u32) }
+            }
+            Ty::Ref(e) => {
+                *kind = "mismatch:ctor-swap";
+                match d.below(3) {
+                    0 => Ty::Vec(e.clone()),
+                    1 => Ty::Array(e.clone(), 1 + d.below(2) as u32),
+                    _ => Ty::Tuple(vec![(**e).clone(), (**e).clone()]),
+                }
+            }
+            Ty::Fn(ps, r) => {
+                *kind = "mismatch:arity";
+                let mut ps = ps.clone();
+                if !ps.is_empty() && d.bool() {
+                    ps.pop();
+                } else {
+                    ps.push(Ty::Bool);
+                }
+                Ty::Fn(ps, r.clone())
+            }
+            other => other.clone(),
+        };
+    }
+    *at -= 1;
+    match t {
+        Ty::Tuple(ts) => Ty::Tuple(ts.iter().map(|x| if *at == usize::MAX { x.clone() } else { mm_mutate(x, at, d, kind) }).collect()),
+        Ty::Array(e, n) => Ty::Array(Box::new(mm_mutate(e, at, d, kind)), *n),
+        Ty::Vec(e) => Ty::Vec(Box::new(mm_mutate(e, at, d, kind))),
+        Ty::Ref(e) => Ty::Ref(Box::new(mm_mutate(e, at, d, kind))),
+        Ty::Fn(ps, r) => {
+            let ps2: Vec<Ty> = ps.iter().map(|x| if *at == usize::MAX { x.clone() } else { mm_mutate(x, at, d, kind) }).collect();
+            let r2 = if *at == usize::MAX { (**r).clone() } else { mm_mutate(r, at, d, kind) };
+            Ty::Fn(ps2, Box::new(r2))
+        }
+        other => other.clone(),
+    }
+}
+
+fn mismatch_stmt(d: &mut Dec) -> (&'static str, String) {
+    let t = mm_ty(d, 2);
+    let n = mm_nodes(&t);
+    let mut at = d.below(n);
+    let mut kind = "mismatch:leaf";
+    let t2 = mm_mutate(&t, &mut at, d, &mut kind);
+    if t2 == t {
+        return ("annot-mismatch", "let ill: string = 1;".to_string());
+    }
+    let (good, bad, tt) = (mm_value(&t), mm_value(&t2), mm_ty_text(&t));
+    let text = match d.below(6) {
+        0 => format!("let ill: {tt} = {bad};"),
+        1 => format!("let ill = {bad}; let ill2: {tt} = ill;"),
+        2 => format!("let ill = |q: {tt}| 1; let _ = ill({bad});"),
+        3 => format!("let ill = ref({good}); let _ = ref_set(ill, {bad});"),
+        4 => format!("let _ = if true {{ {good} }} else {{ {bad} }};"),
+        _ => format!("let _ = [{good}, {bad}];"),
+    };
+    (kind, text)
+}
+
 /// (kind, statement text) — each is ill-typed under the documented type
 /// system whatever surrounds it
 fn ill_typed_stmt(d: &mut Dec, p: &GProg) -> (&'static str, String) {
@@ -83,6 +245,9 @@ fn ill_typed_stmt(d: &mut Dec, p: &GProg) -> (&'static str, String) {
         ("vec-push-type", "let ill: Vec[int32] = vec_new(); let _ = vec_push(ill, \"s\");"),
         ("mixed-int-widths", "let _ = 1i8 + 1i16;"),
     ];
+    if d.chance(110) {
+        return mismatch_stmt(d);
+    }
     let n_ctx = 6;
     let k = d.below(closed.len() + n_ctx);
     if k < closed.len() {
@@ -267,7 +432,7 @@ impl Check for C03 {
         if phase == "illtyped" {
             // the injected statement is chosen with the LAST bytes so that the
             // program and the mutation shrink independently
-            let split = bytes.len().saturating_sub(6);
+            let split = bytes.len().saturating_sub(24);
             let (pb, mb) = bytes.split_at(split);
             let mut pd = Dec::new(pb);
             let mut p = gen_program(&mut pd, cfg, ctx);
@@ -357,7 +522,7 @@ impl Check for C03 {
         ]
     }
     fn required_labels(&self, _tier: Tier) -> Vec<&'static str> {
-        vec!["ir-checked", "ill:call-arg-type", "ill:array-len", "ill:struct-field-type", "rejected-by:typer"]
+        vec!["ir-checked", "ill:call-arg-type", "ill:array-len", "ill:struct-field-type", "ill:mismatch:ctor-swap", "ill:mismatch:leaf", "ill:mismatch:arity", "ill:mismatch:array-len", "rejected-by:typer"]
     }
     fn max_discard_fraction(&self) -> f64 {
         0.2
